@@ -1053,6 +1053,23 @@ def configure_output(I):
     install_common(I)
     I.specs["Expr.as_const"] = A.abstract_fn("child.as_const", returns="obj", raises=[N.Impossible, ("any", Exception)])
     I.specs[("fn", id(C.escape))] = A.abstract_fn("escape", returns="obj")
+    # has_safe_repr guards the output fold since /repo 16d1781 (its own contract: C08.const.roundtrip, C01 W5, C34): here
+    # only "some boolean function of the constant"; False makes the real code raise Impossible (the child is a run-time child)
+    # For a TemplateData child it is True: TemplateData.as_const returns data / Markup(data) (C08.fold.TemplateData) and
+    # has_safe_repr accepts exactly-str and Markup values (C34.has_safe_repr.exact_types, C01 W5 table).
+    def safe_repr(I_, st, args, kwargs, node):
+        v = fresh("has_safe_repr", "bool")
+        for e in reversed(st.trace):
+            if e.kind == "call" and e.name == "child.as_const" and e.result is args[0]:
+                p = st.get(e.args[0]).path
+                st.assume(z3.Implies(z3.Bool(f"{p}.isinstance(TemplateData)"), v.t))
+                models.used("has_safe_repr(TemplateData.as_const(..)) is True (str / Markup)")
+                break
+        A.call_event(st, "has_safe_repr", args, kwargs, v, node)
+        return [(st, v)]
+
+    I.specs[("fn", id(C.has_safe_repr))] = safe_repr
+    I.specs["jinja2.compiler:has_safe_repr"] = safe_repr
 
     def finfo(I_, st, args, kwargs, node):
         return [(st, st.alloc(HObj(C.CodeGenerator._FinalizeInfo, fields={"const": args[0], "src": args[1]}, path="finalize")))]
